@@ -164,3 +164,14 @@ const OwnerHookSQL = "UPDATE owners SET age = age + ? WHERE id < ?"
 func (o *Owner) AfterCreate(tx *gorm.DB) error {
 	return tx.Exec(OwnerHookSQL, 0, -1).Error
 }
+
+// OwnerDefaultAge is what Owner's BeforeCreate hook writes into a record created without an age:
+// a hook that changes a written column (the statement must show the changed value, dry or not).
+const OwnerDefaultAge = 18
+
+func (o *Owner) BeforeCreate(tx *gorm.DB) error {
+	if o.Age == 0 {
+		o.Age = OwnerDefaultAge
+	}
+	return nil
+}
